@@ -62,17 +62,22 @@ for name in names:
         items.append({"kind": "period", "name": name, "status": "error", "detail": f"{type(e).__name__}: {str(e)[:200]}"})
 
 # ---------------------------------------------------------------- (2) real cached executions
-dev = qp.device("default.qubit")
 executed_log = []
-_orig = dev.execute
 
 
-def logging_execute(circuits, *a, **k):
-    executed_log.append(list(circuits) if isinstance(circuits, (list, tuple)) else [circuits])
-    return _orig(circuits, *a, **k)
+def logged_device(name, **kw):
+    d = qp.device(name, **kw)
+    orig = d.execute
+
+    def logging_execute(circuits, *a, **k):
+        executed_log.append(list(circuits) if isinstance(circuits, (list, tuple)) else [circuits])
+        return orig(circuits, *a, **k)
+
+    d.execute = logging_execute
+    return d
 
 
-dev.execute = logging_execute
+dev = logged_device("default.qubit")
 GATES1 = [qp.RX, qp.RY, qp.RZ, qp.PhaseShift, qp.U1]
 GATES2 = [qp.CRX, qp.CRY, qp.CRZ, qp.IsingXX, qp.ControlledPhaseShift]
 
@@ -130,43 +135,29 @@ def rand_tape(pool, nw):
     return t
 
 
+def canon(res):
+    if isinstance(res, (tuple, list)):
+        return [canon(r) for r in res]
+    if isinstance(res, dict):
+        return {"counts": sorted((str(k), canon(v)) for k, v in res.items())}
+    a = np.asarray(res, dtype=complex)
+    return [list(a.shape), np.round(a.ravel().view(float), 9).tolist()]
+
+
 def code_of(res, table):
-    key = json.dumps(np.round(np.asarray(res, dtype=complex).ravel().view(float), 9).tolist()) if not isinstance(res, tuple) else \
-        json.dumps([np.round(np.asarray(r, dtype=complex).ravel().view(float), 9).tolist() for r in res])
-    key = key.replace("-0.0", "0.0")
+    key = json.dumps(canon(res)).replace("-0.0", "0.0")
     return table.setdefault(key, len(table) + 1)
 
 
-cases = []
-ncases = 40 if tier == "quick" else 400
-for ci in range(ncases):
-    nw = rng.choice([1, 2, 3])
-    pool = [rng.uniform(0.2, 3.0) for _ in range(2)] + [0.0, math.pi / 2]
-    tapes = [rand_tape(pool, nw) for _ in range(rng.randint(1, 3))]
-    for t in list(tapes):          # twins: same circuit with one parameter shifted by a multiple of 2 pi
-        ps = t.get_parameters(trainable_only=False)
-        if ps and rng.random() < 0.85:
-            j = rng.randrange(len(ps))
-            if np.ndim(ps[j]) > 0 or np.iscomplexobj(ps[j]):   # a matrix / diagonal is not an angle: no 2 pi twin
-                continue
-            try:
-                tw = t.bind_new_parameters([ps[j] + rng.choice([1, 2, -1, -2, 3]) * TWO_PI], [j])
-                tapes.append(tw)
-            except Exception:
-                pass
-    for t in list(tapes):          # twins differing only in the imaginary parts of a complex parameter (conjugated matrix)
-        ps = t.get_parameters(trainable_only=False)
-        cj = [j for j, x in enumerate(ps) if np.iscomplexobj(x)]
-        if cj:
-            j = rng.choice(cj)
-            try:
-                tapes.append(t.bind_new_parameters([np.conj(np.asarray(ps[j]))], [j]))
-            except Exception:
-                pass
-    nb = rng.randint(1, 3)
-    batches = [[rng.randrange(len(tapes)) for _ in range(rng.randint(1, 5))] for _ in range(nb)]
-    if any(np.iscomplexobj(x) for t in tapes for x in t.get_parameters(trainable_only=False)):
-        batches.append(list(range(len(tapes))))     # make sure the twins meet in one cache
+def desc(o):
+    """repr plus the plain keyword settings the repr does not show (PauliError word, IntegerComparator value/geq, ...)"""
+    r = repr(o)
+    hp = {k: v for k, v in getattr(o, "hyperparameters", {}).items() if isinstance(v, (str, bool, int, float, tuple)) and k not in r and k not in ("work_wire_type", "unitary_check")}
+    return r + (" " + json.dumps(hp, default=str, sort_keys=True) if hp else "")
+
+
+def run_case(tapes, batches, dev, label=None):
+    """one shared cache over the whole history `batches`; reference = every tape alone with cache=False"""
     restable = {}
     keycodes, kt = {}, []
     for i, t in enumerate(tapes):
@@ -196,8 +187,162 @@ for ci in range(ncases):
         # direct statement: cached results equal the uncached ones
         for pos, i in enumerate(b):
             if out[pos] is None or out[pos] != rt[i][1]:
-                mismatch = mismatch or {"batch": b, "position": pos, "tape": [repr(o) for o in tapes[i].operations], "measurements": [repr(m) for m in tapes[i].measurements]}
-    cases.append({"keys": kt, "runs": rt, "batches": batches, "observed": observed, "mismatch": mismatch,
-                  "dup_keys": len(kt) - len(set(k for _, k in kt)), "tapes": [[repr(o) for o in t.operations] + [repr(m) for m in t.measurements] for t in tapes]})
+                mismatch = mismatch or {"batch": b, "position": pos, "tape": [desc(o) for o in tapes[i].operations], "measurements": [repr(m) for m in tapes[i].measurements],
+                                        "shots": repr(tapes[i].shots), "device": dev.name}
+    case = {"keys": kt, "runs": rt, "batches": batches, "observed": observed, "mismatch": mismatch,
+            "dup_keys": len(kt) - len(set(k for _, k in kt)),
+            "tapes": [[desc(o) for o in t.operations] + [repr(m) for m in t.measurements] + ([f"shots={t.shots.total_shots}"] if t.shots else []) for t in tapes]}
+    if label:
+        case["label"] = label
+    cases.append(case)
+
+
+cases = []
+QS = qp.tape.QuantumScript
+
+# ---------------------------------------------------------------- (2a) fixed corpus (independent of the seed)
+# (i) tapes DERIVED with QuantumScript.copy(...) from a tape that has already been through a cached execution
+#     (so every memoised attribute of the source, its fingerprint included, exists when the copy is made)
+
+
+def derived_history(base, updates, dev, label):
+    qp.execute([base], dev, cache=True)          # an ordinary cached execution of the source tape
+    _ = base.hash
+    tapes = [base] + [base.copy(**u) for u in updates]
+    n = len(tapes)
+    run_case(tapes, [[0], list(range(n)), list(range(n - 1, -1, -1)), [n - 1, 0]], dev, label)
+    # the same derivations, each copy meeting the source one after another in the shared cache
+    tapes2 = [base] + [base.copy(**u) for u in updates]
+    run_case(tapes2, [[0]] + [[i] for i in range(1, n)] + [[0]], dev, label + " (one by one)")
+
+
+base_a = QS([qp.RX(0.4, 0), qp.RY(0.7, 1), qp.CNOT([0, 1])], [qp.expval(qp.Z(0))])
+derived_history(base_a, [dict(measurements=[qp.expval(qp.X(1))]), dict(measurements=[qp.state()]),
+                         dict(measurements=[qp.probs(wires=[0, 1])]), dict(measurements=[qp.expval(qp.Z(0)), qp.var(qp.X(1))]),
+                         dict(measurements=[qp.density_matrix(wires=[1])]), dict(trainable_params=[0]),
+                         dict(operations=[qp.RX(0.9, 0), qp.RY(0.7, 1), qp.CNOT([0, 1])]),
+                         dict(ops=[qp.RX(0.4, 0), qp.RY(0.7 + TWO_PI, 1), qp.CNOT([0, 1])], measurements=[qp.expval(qp.X(1))])],
+                dev, "copy(measurements/trainable_params/operations) of an executed analytic tape")
+# finite shots on a computational-basis state: every sample is the same, execution stays a function of the tape
+base_s = QS([qp.X(0), qp.CNOT([0, 1])], [qp.sample(wires=[0, 1])], shots=4)
+derived_history(base_s, [dict(shots=6), dict(shots=(3, 2)), dict(measurements=[qp.counts(wires=[0, 1])]),
+                         dict(measurements=[qp.expval(qp.Z(0))]), dict(measurements=[qp.counts(wires=[0])], shots=7)],
+                dev, "copy(shots/measurements) of an executed finite-shot tape")
+base_p = QS([qp.X(1)], [qp.probs(wires=[0, 1])])
+derived_history(base_p, [dict(shots=5, measurements=[qp.sample(wires=[0, 1])]), dict(measurements=[qp.probs(wires=[1])]),
+                         dict(measurements=[qp.expval(qp.Z(1))], shots=3)],
+                dev, "copy(shots+measurements) of an executed analytic tape")
+
+# (ii) near-duplicate circuits differing ONLY in a keyword setting (hyperparameter) of one operator
+prep3 = [qp.X(0), qp.Hadamard(1)]
+kw_families = [
+    ("IntegerComparator(value, geq)", [prep3 + [qp.IntegerComparator(v, geq=g, wires=[0, 1, 2])] for v, g in ((2, True), (3, True), (2, False), (3, False), (1, True))],
+     [qp.probs(wires=[2])]),
+    ("PauliRot(pauli_word)", [[qp.Hadamard(0), qp.RY(0.3, 1), qp.PauliRot(0.7, w, wires=[0, 1])] for w in ("XY", "XZ", "ZZ", "YX", "IZ")], [qp.state()]),
+    ("MultiControlledX(control_values)", [[qp.Hadamard(0), qp.Hadamard(1), qp.MultiControlledX(wires=[0, 1, 2], control_values=cv)] for cv in ([1, 1], [1, 0], [0, 1], [0, 0])],
+     [qp.probs(wires=[0, 1, 2])]),
+    ("ctrl(control_values)", [[qp.Hadamard(0), qp.ctrl(qp.RX(0.8, 1), control=[0], control_values=[cv])] for cv in (0, 1)], [qp.probs(wires=[0, 1])]),
+    ("BasisState(state)", [[qp.BasisState(np.array(st), wires=[0, 1]), qp.Hadamard(0)] for st in ([1, 0], [0, 1], [1, 1])], [qp.state()]),
+    ("pow(z)", [[qp.Hadamard(0), qp.pow(qp.T(0), z)] for z in (1, 2, 3)], [qp.state()]),
+]
+for fam, opss, ms in kw_families:
+    try:
+        tapes = [QS(o, ms) for o in opss]
+    except Exception as e:
+        items.append({"kind": "corpus", "name": fam, "status": "error", "detail": f"{type(e).__name__}: {str(e)[:200]}"})
+        continue
+    n = len(tapes)
+    run_case(tapes, [list(range(n)), list(range(n - 1, -1, -1))], dev, "keyword twins: " + fam)
+
+# (iii) near-duplicates whose operators carry LARGE array parameters (> 1000 entries) and differ only in entries that an
+#       abbreviated printout of the array (numpy elides the middle of arrays above 1000 entries) does not show
+_ii, _jj = np.meshgrid(np.arange(32), np.arange(32), indexing="ij")
+H1 = np.cos(0.37 * _ii * _jj + 0.11 * (_ii + _jj)); H1 = (H1 + H1.T) / 2
+H2 = H1.copy(); H2[0, 16] += 0.5; H2[16, 0] += 0.5
+H3 = H1.copy(); H3[7, 7] -= 0.25
+big_h = [QS([qp.Hadamard(0)], [qp.expval(qp.Hermitian(H, wires=range(5)))]) for H in (H1, H2)] + \
+        [QS([qp.Hadamard(0), qp.X(2), qp.X(3), qp.X(4)], [qp.expval(qp.Hermitian(H, wires=range(5)))]) for H in (H1, H3)]
+run_case(big_h, [[0, 1, 2, 3], [3, 2, 1, 0]], dev, "large-array twins: 32x32 Hermitian observable, entries [0,16]/[16,0] resp. [7,7] differ")
+
+
+def rot_block(a, i=8, j=20):
+    U = np.eye(32, dtype=complex)
+    U[i, i] = U[j, j] = math.cos(a); U[i, j] = U[j, i] = -1j * math.sin(a)
+    return U
+
+
+big_u = [QS([qp.X(1), qp.QubitUnitary(rot_block(a), wires=range(5))], [qp.probs(wires=[0, 1, 2])]) for a in (0.3, 1.1)]
+big_d = [QS([qp.Hadamard(w) for w in range(10)] + [qp.DiagonalQubitUnitary(np.exp(1j * np.where(np.arange(1024) == 500, ph, 0.0)), wires=range(10))] + [qp.Hadamard(w) for w in range(10)],
+            [qp.probs(wires=[0, 1])]) for ph in (0.0, 2.5)]
+run_case(big_u + big_d, [[0, 1, 2, 3], [3, 2, 1, 0]], dev, "large-array twins: 32x32 QubitUnitary / 1024-entry DiagonalQubitUnitary differing in elided entries")
+
+devm = logged_device("default.mixed", wires=2)
+mixed_families = [
+    ("PauliError(operators)", [[qp.RY(0.6, 0), qp.PauliError(w, 0.3, wires=0)] for w in ("X", "Z", "Y")], [qp.expval(qp.X(0)), qp.expval(qp.Z(0))]),
+    ("PauliError(operators) on |+>", [[qp.Hadamard(0), qp.PauliError(w, 0.3, wires=0)] for w in ("X", "Z")], [qp.expval(qp.X(0))]),
+    ("PauliError(operators) 2 wires", [[qp.Hadamard(0), qp.RY(0.4, 1), qp.PauliError(w, 0.25, wires=[0, 1])] for w in ("XZ", "ZX", "YY")], [qp.density_matrix(wires=[0, 1])]),
+    ("channel class", [[qp.RY(0.9, 0), c(0.2, wires=0)] for c in (qp.BitFlip, qp.PhaseFlip, qp.DepolarizingChannel, qp.AmplitudeDamping, qp.PhaseDamping)], [qp.expval(qp.Z(0)), qp.expval(qp.X(0))]),
+]
+for fam, opss, ms in mixed_families:
+    try:
+        tapes = [QS(o, ms) for o in opss]
+    except Exception as e:
+        items.append({"kind": "corpus", "name": fam, "status": "error", "detail": f"{type(e).__name__}: {str(e)[:200]}"})
+        continue
+    n = len(tapes)
+    run_case(tapes, [list(range(n)), list(range(n - 1, -1, -1))], devm, "keyword twins (default.mixed): " + fam)
+# derived tapes on default.mixed as well
+base_m = QS([qp.RY(0.6, 0), qp.PauliError("X", 0.3, wires=0), qp.CNOT([0, 1])], [qp.expval(qp.Z(0))])
+derived_history(base_m, [dict(measurements=[qp.expval(qp.Z(0) @ qp.Z(1))]), dict(measurements=[qp.probs(wires=[0, 1])]), dict(measurements=[qp.density_matrix(wires=[0])])],
+                devm, "copy(measurements) of an executed tape on default.mixed")
+nfixed = len(cases)
+
+# ---------------------------------------------------------------- (2b) generated histories
+rng2 = random.Random(req["seed"] * 7919 + 5)      # separate stream: the derivations below do not disturb the main generator
+ALT_MS = [lambda nw: [qp.state()], lambda nw: [qp.expval(qp.X(nw - 1))], lambda nw: [qp.expval(qp.Z(0))], lambda nw: [qp.probs(wires=[0])],
+          lambda nw: [qp.var(qp.Y(0)), qp.expval(qp.Z(nw - 1))], lambda nw: [qp.density_matrix(wires=[nw - 1])]]
+ncases = 40 if tier == "quick" else 400
+for ci in range(ncases):
+    nw = rng.choice([1, 2, 3])
+    pool = [rng.uniform(0.2, 3.0) for _ in range(2)] + [0.0, math.pi / 2]
+    tapes = [rand_tape(pool, nw) for _ in range(rng.randint(1, 3))]
+    for t in list(tapes):          # twins: same circuit with one parameter shifted by a multiple of 2 pi
+        ps = t.get_parameters(trainable_only=False)
+        if ps and rng.random() < 0.85:
+            j = rng.randrange(len(ps))
+            if np.ndim(ps[j]) > 0 or np.iscomplexobj(ps[j]):   # a matrix / diagonal is not an angle: no 2 pi twin
+                continue
+            try:
+                tw = t.bind_new_parameters([ps[j] + rng.choice([1, 2, -1, -2, 3]) * TWO_PI], [j])
+                tapes.append(tw)
+            except Exception:
+                pass
+    for t in list(tapes):          # twins differing only in the imaginary parts of a complex parameter (conjugated matrix)
+        ps = t.get_parameters(trainable_only=False)
+        cj = [j for j, x in enumerate(ps) if np.iscomplexobj(x)]
+        if cj:
+            j = rng.choice(cj)
+            try:
+                tapes.append(t.bind_new_parameters([np.conj(np.asarray(ps[j]))], [j]))
+            except Exception:
+                pass
+    nb = rng.randint(1, 3)
+    batches = [[rng.randrange(len(tapes)) for _ in range(rng.randint(1, 5))] for _ in range(nb)]
+    if any(np.iscomplexobj(x) for t in tapes for x in t.get_parameters(trainable_only=False)):
+        batches.append(list(range(len(tapes))))     # make sure the twins meet in one cache
+    if rng2.random() < 0.6:        # copies with other measurements / trainable indices, derived from an already hashed tape
+        src = rng2.randrange(len(tapes))
+        _ = tapes[src].hash
+        new = []
+        for _k in range(rng2.randint(1, 2)):
+            if rng2.random() < 0.8:
+                tapes.append(tapes[src].copy(measurements=rng2.choice(ALT_MS)(nw)))
+            else:
+                tapes.append(tapes[src].copy(trainable_params=[]))
+            new.append(len(tapes) - 1)
+        if rng2.random() < 0.5:
+            batches.insert(0, [src])
+        batches.append([src] + new if rng2.random() < 0.5 else new + [src])
+    run_case(tapes, batches, dev)
 json.dump(oblig, open(req["outdir"] + "/obligations.json", "w"))
-print(json.dumps({"items": items, "cases": cases}))
+print(json.dumps({"items": items, "cases": cases, "nfixed": nfixed}))
